@@ -39,6 +39,8 @@ PATTERNS = [
     ((2,), ()),
     ((3,), ()),
     (("x",), ()),
+    ((-1, 0), ()),  # hash(-1) == hash(-2) in CPython: distinct patterns with equal hashes
+    ((-2, 0), ()),
 ]
 NP = len(PATTERNS)
 MAXSIZES = {"none": None, "neg": -3, "zero": 0, "one": 1, "two": 2, "three": 3, "default": "default", "big": 5}
